@@ -80,6 +80,23 @@ claimed["C11"] = dict(
          "and the four option combinations.",
     design="5 C11", technique=T)
 
+claimed["C03"] = dict(
+    text="Bounded symbolic execution of the real snapshot producers (Router.Iter, read-only Txn, Txn.Snapshot, Txn.Iter) and "
+         "the real write path: a snapshot is observed (Iter.All/Prefix/Routes, Has, Route, Len, Lookup with parameters of a "
+         "symbolic path), every object reachable from it is frozen in the executor, then every single later write of the "
+         "op/pattern pool (direct, new txn, same txn; commit or abort) is executed and the snapshot is re-observed: equal "
+         "observations, no value-changing store into a frozen object on any path, and the writer's own view equals the map "
+         "model. Sequential half only; see level_note.",
+    design="5 C03", technique="bounded symbolic execution of go/ssa + SMT with a frozen-object monitor; differential before/after observation")
+claimed["C04"] = dict(
+    text="Bounded symbolic execution of the real Txn/Updates code: for every transaction of k writes from the pool and each of "
+         "five endings (Commit, Abort, managed commit, error after j ops, panic after j ops with j solver-chosen) the txn "
+         "view equals the model including its own writes, the router view and fresh readers equal the pre-state until "
+         "commit and the post-state after, aborted/failed/panicked transactions publish nothing, the settled txn refuses "
+         "use, double Commit/Abort are no-ops, a new writer can lock (mutex model), and read-only txns refuse writes "
+         "without effect.",
+    design="5 C04", technique=T)
+
 reasons = {}
 
 ids = [json.loads(l)["id"] for l in open("/verif/properties.jsonl")]
